@@ -23,6 +23,7 @@ import (
 	"verifharness/gl/c10"
 	"verifharness/internal/doctree"
 	"verifharness/internal/ev"
+	"verifharness/internal/gendocs"
 	"verifharness/internal/genlab"
 	"verifharness/internal/jsonv"
 	"verifharness/internal/mutate"
@@ -267,6 +268,16 @@ func Main(args []string) int {
 			files = append(files, filepath.Join(ev.RepoDir(), "_testdata", must))
 		}
 		sort.Strings(files)
+	}
+	// crafted documents (example maps at every site, encodings, headers, discriminator mappings, server variables,
+	// multi-schema cycles): containers the sampled corpus documents may lack
+	craftedDir := filepath.Join(scratch, "crafted")
+	os.MkdirAll(craftedDir, 0o755)
+	for _, it := range gendocs.Crafted() {
+		p := filepath.Join(craftedDir, it.Name)
+		if os.WriteFile(p, []byte(it.Text), 0o644) == nil {
+			files = append(files, p)
+		}
 	}
 	nCases := 0
 	var cmu sync.Mutex
@@ -626,6 +637,9 @@ func Main(args []string) int {
 			base.IgnoreAll = false
 		}
 		id := strings.TrimPrefix(p, filepath.Join(ev.RepoDir(), "_testdata")+"/")
+		if strings.HasPrefix(p, craftedDir) {
+			id = "crafted/" + filepath.Base(p)
+		}
 		if replayDoc != "" && id != replayDoc {
 			return
 		}
@@ -891,7 +905,17 @@ func mustPlan(tree *jsonv.Value) []mutate.Spec {
 			seenKind["pathkey"]++
 			out = append(out, mutate.Spec{Path: pp, Kind: "path-template-error"}, mutate.Spec{Path: pp, Kind: "break-escape"})
 		}
-		if len(p) >= 2 && containers[p[len(p)-2]] && seenKind["null:"+p[len(p)-2]] < 2 {
+		// per container name and context (the key three levels up: "content" for a media type's examples,
+		// "parameters"/"headers" for theirs, none for components), two members each, at most 8 per container name
+		ctx := ""
+		if len(p) >= 4 {
+			ctx = p[len(p)-4]
+			if _, err := strconv.Atoi(ctx); err == nil && len(p) >= 5 {
+				ctx = p[len(p)-5]
+			}
+		}
+		if len(p) >= 2 && containers[p[len(p)-2]] && seenKind["null:"+p[len(p)-2]+"|"+ctx] < 2 && seenKind["null:"+p[len(p)-2]] < 8 {
+			seenKind["null:"+p[len(p)-2]+"|"+ctx]++
 			seenKind["null:"+p[len(p)-2]]++
 			out = append(out, mutate.Spec{Path: pp, Kind: "null"}, mutate.Spec{Path: pp, Kind: "empty-map"})
 		}
